@@ -1,4 +1,5 @@
 import BM.Props.C01
+import BM.Props.C01c
 import BM.Props.SrcPin.C01
 import BM.Props.OracleModelC01
 /- Top module of property C01: its theorems (BM.Props.C01) and the statement of which units of /repo's
